@@ -146,7 +146,14 @@ theorem step_first {b : B} {s : Spec.Broker.S} (h : R b s) (c : Nat) (f : First)
       obtain ⟨hcfree, hwill⟩ := hreq
       have hwok : ∀ w, req.will = some w → willOk w = true := by
         intro w hw; rw [hw] at hwill; exact hwill
-      have hcf : ∀ c' τ, liveSess b c' = some τ → τ.cid ≠ effCid c req := fun c' τ hτ => cidFree_spec hcfree hτ
+      have hcf : ∀ c' τ, liveSess b c' = some τ → τ.cid ≠ effCid c req := by
+        unfold effCid
+        cases hemp : req.clientId.isEmpty with
+        | true => simp only [↓reduceIte]; exact h.anon_free hdead
+        | false =>
+          simp only [hemp, Bool.false_or] at hcfree
+          simp only [Bool.false_eq_true, ↓reduceIte]
+          exact fun c' τ hτ => cidFree_spec hcfree hτ
       have href : Spec.Broker.refusals req a = [] := (Mqtt.Proofs.BrokerLife.refusals_nil_iff req a).mpr hacc
       have hreal : req.clientId.isEmpty = false → realCid req.clientId = true := realCid_of_accepts hacc
       have hfa := Mqtt.Proofs.BrokerLife.first_accepted b c req a hacc
